@@ -2,6 +2,7 @@ import NitroVerif.Lemmas.Peg
 import NitroVerif.Lemmas.Build
 import NitroVerif.Lemmas.SkipInv
 import NitroVerif.Lemmas.TypeBuild
+import NitroVerif.Lemmas.ParseString
 import NitroVerif.Model.Build
 import NitroVerif.Spec.Lex
 /-!
@@ -199,6 +200,51 @@ theorem string_decode_code (c : Char) : charFromU32 c.toNat = .ok c := by
 /-- `string_decode`, plain arm: a character that needs no escape is written as itself -/
 theorem string_decode_plain (c : Char) (h : simpleEscape? c = none) : specEscapeChar c = [c] := by
   simp [specEscapeChar, h]
+
+open NitroVerif.StringParse in
+/-- `string_decode`, composed over a whole literal, anywhere in an input: for EVERY list of characters `s`, if the input
+    continues at offset `off` with the canonical literal `"` ++ specEscape s ++ `"` (and, for the empty string, the
+    literal is not followed by a third `"`, which would open a block string), then the GENERATED grammar's `StringValue`
+    rule (generic interpreter, any calling context, every depth bound ≥ |s| + 40) consumes exactly the literal and
+    yields one `StringValue` pair, on which `build_string_value` returns exactly `s` and the line/column of the opening
+    quote. (The PEG run over the string body is an induction on `s` through the interpreter's `e*` unfolding; the three
+    arms are `string_decode_escape` / `string_decode_plain` above. `\uXXXX` escapes are not produced by `specEscape`.) -/
+theorem string_decode_at (s : List Char) (inp : List Char) (off : Nat) (rest : List Char)
+    (h : inp.drop off = '"' :: (specEscape s ++ ['"']) ++ rest) (hend : s = [] → ∀ d r, rest = d :: r → d ≠ '"')
+    (at_ : Atomicity) (fuel : Nat) (hf : s.length + 40 ≤ fuel) :
+    ∃ pair, Peg.run gList fuel R.StringValue inp off at_ = some (off + ((specEscape s).length + 2), [pair]) ∧
+      stringValueChars (Ctx.spec inp) pair = .ok (s, { line := (lineCol inp off).1, col := (lineCol inp off).2 }) := by
+  refine ⟨stringPair s off, ?_, stringValueChars_stringPair s off rest h⟩
+  have hr := stringValue_runs s off rest (fun hs d r he hd => hend hs d r he hd) (at_ := at_)
+  obtain ⟨tr', h'⟩ := hr {}
+  have := h' fuel hf
+  unfold Peg.run
+  rw [h]
+  simp only [quoted] at this
+  rw [this]
+  simp
+
+open NitroVerif.StringParse in
+/-- `string_decode`: for EVERY list of characters `s`, parsing the canonical literal `"` ++ specEscape s ++ `"` with
+    the generated grammar's `StringValue` rule and building it gives `s` back — with the depth bound the parser model
+    actually uses. Every `s` is covered: each character is either one of the seven that `specEscape` writes as a
+    two-character escape, or it is none of `"`, `\`, LF, CR and is written as itself. -/
+theorem string_decode (s : List Char) :
+    let inp := '"' :: (specEscape s ++ ['"'])
+    ∃ pair, Peg.parse gList (defaultFuel inp) R.StringValue inp = .pairs [pair] ∧
+      stringValueChars (Ctx.spec inp) pair = .ok (s, { line := 0, col := 0 }) := by
+  intro inp
+  refine ⟨stringPair s 0, ?_, ?_⟩
+  · have hr := stringValue_runs s 0 [] (fun _ d r he => by cases he) (at_ := .nonAtomic)
+    obtain ⟨tr', h'⟩ := hr {}
+    have := h' (defaultFuel inp) (by have := specEscape_length_ge s; simp [defaultFuel, inp]; omega)
+    simp only [List.append_nil] at this
+    simp [Peg.parse, runTr, inp, quoted] at this ⊢
+    rw [this]
+  · have := stringValueChars_stringPair (inp := inp) s 0 [] (by simp [inp, quoted])
+    simpa [lineCol, lineColFrom] using this
+
+example : specEscape ['a', '"', '\n', Char.ofNat 0x1F600] = ['a', '\\', '"', '\\', 'n', Char.ofNat 0x1F600] := by decide
 
 /-- Finding t (OPEN, known finding C07-block-string-raw): the model — like the code — returns a block string raw.
     For `query { a(s: """⏎  a⏎""") }` the builder yields `"\n  a\n"` where the spec's BlockStringValue is `"a"`. -/
